@@ -411,6 +411,117 @@ def r4_scan_once(k: Kit) -> None:
                   k.loc(fi, n))
 
 
+def r5(k: Kit) -> None:
+    """keyword value / keyword=value / keyword = value."""
+    import shlex
+    rep = k.rep
+    idx = k.idx
+    rep.rule('C18.R5', 'the line loop of SSHConfig.parse evaluated on witness '
+             'lines (shlex applied to the literal line): the three OpenSSH '
+             'spellings `Keyword value`, `Keyword=value` and `Keyword = '
+             'value` hand the same arguments to the option handler, for '
+             'ordinary options, for conditionals and for the options whose '
+             'value is the raw rest of the line (ProxyCommand, RemoteCommand)')
+    fi = k.func('config.SSHConfig.parse')
+    loops = [x for x in ast.walk(fi.node) if isinstance(x, ast.For) and
+             dotted(x.iter) == 'file']
+    if len(loops) != 1:
+        rep.error('C18.R5', key(fi, 'line loop'), 'line loop not found')
+        return
+    cls = idx.cls('config.SSHConfig')
+
+    def class_set(name):
+        for c in [cls] + idx.all_subclasses(cls):
+            for st in c.node.body:
+                if isinstance(st, ast.Assign) and any(
+                        isinstance(t, ast.Name) and t.id == name
+                        for t in st.targets):
+                    v = idx.fold(c.module, st.value)
+                    if isinstance(v, (set, frozenset, tuple, list)) and v:
+                        return frozenset(v)
+        return None
+    nosplit = class_set('_no_split')
+    conds = class_set('_conditionals')
+    if not nosplit or not conds:
+        rep.error('C18.R5', key(fi, 'tables'), '_no_split / _conditionals '
+                  'not foldable')
+        return
+    raw = sorted(nosplit)[0]
+    groups = [
+        ('ordinary option', ['Port 22', 'Port=22', 'Port = 22', 'Port =22']),
+        ('list option', ['SendEnv A B', 'SendEnv=A B', 'SendEnv = A B']),
+        ('conditional', ['Host a b', 'Host=a b', 'Host = a b']),
+        ('raw-line option', [f'{raw} ssh -W %h:%p gw', f'{raw}=ssh -W %h:%p gw',
+                             f'{raw} = ssh -W %h:%p gw',
+                             f'{raw} =ssh -W %h:%p gw']),
+    ]
+    n = 0
+    for gname, lines in groups:
+        seen = []
+        for line in lines:
+            n += 1
+            got = []
+
+            def on_call(nm, args, env, got=got):
+                if nm == 'shlex.split':
+                    return tuple(shlex.split(args[0]))
+                if nm == 'HANDLER':
+                    got.append(list(args[2]))
+                    return None
+                if nm == 'enumerate':
+                    return tuple(enumerate(args[0], *args[1:]))
+                return Obj('x')
+            try:
+                evaluate(idx, fi.module, loops, {
+                    'self._line_no': 0, 'self._conditionals': conds,
+                    'self._no_split': nosplit, 'self._matching': True},
+                    {'file': (line + '\n',)}, on_call,
+                    atoms={'self._handlers[loption]': ('OPT', Obj('HANDLER'))})
+            except NotEvaluable as exc:
+                rep.error('C18.R5', key(fi, 'not-evaluable'), str(exc))
+                return
+            seen.append((line, got[0] if got else None))
+        vals = {repr(v) for ln, v in seen}
+        rep.check(len(vals) == 1 and seen[0][1] is not None, 'C18.R5',
+                  key(fi, f'{gname}: separator forms agree'),
+                  f'{len(lines)} spellings give {seen[0][1]}',
+                  f'{gname}: ' + '; '.join(f'`{ln}` → {v}' for ln, v in seen)
+                  + ' - the `=` separator becomes part of the value',
+                  fi.loc(loops[0]))
+    rep.count('eval.config_line_witnesses', n)
+
+
+def r6(k: Kit) -> None:
+    """Include reads the files a pattern matches in a defined order."""
+    from ..flow import expr_sources
+    rep = k.rep
+    fi = k.func('config.SSHConfig._include')
+    g = k.cfg(fi)
+    rd = k.rd(fi)
+    rep.rule('C18.R6', 'the files matched by an Include pattern are parsed in '
+             'sorted order (ssh uses glob(3), which sorts): with first-value-'
+             'wins semantics the directory order of the file system would '
+             'otherwise decide which file sets an option')
+    loops = [n for n in g.nodes if n.kind == 'loop' and
+             isinstance(n.ast, ast.For) and any(
+                 is_call(c, 'parse', 'self') for c in ast.walk(n.ast)
+                 if isinstance(c, ast.Call)) and
+             not any(isinstance(x, ast.For) for x in ast.walk(n.ast)
+                     if x is not n.ast)]
+    rep.floor('C18.R6', 'include parse loops', len(loops), 1)
+    for lp in loops:
+        it = lp.ast.iter
+        leaves, free = expr_sources(g, rd, lp.id, it)
+        oks = any(is_call(x, 'sorted') for l in list(leaves) + [it]
+                  for x in ast.walk(l) if isinstance(x, ast.Call))
+        rep.check(oks, 'C18.R6', key(fi, 'included files in sorted order'),
+                  'the glob result is sorted before it is parsed',
+                  f'`{norm(it)}` is iterated in the order the file system '
+                  'returns it: for `Include conf.d/*` the first file to set '
+                  'an option is arbitrary, where ssh reads 05-z before 10-a',
+                  k.loc(fi, lp))
+
+
 def r3_file_start(k: Kit) -> None:
     """Each configuration file starts outside any Host/Match block."""
     rep = k.rep
@@ -449,4 +560,6 @@ def run(idx, rep, tier):
     r3(k)
     r3_file_start(k)
     r4_scan_once(k)
+    r5(k)
+    r6(k)
     r4(k)
